@@ -142,7 +142,7 @@ func ruleCTAgree(r *Run) {
 		return
 	}
 	codecKeyOK := true
-	for _, o := range p.origins(getCodec.Common().Args[1], originOpts{}) {
+	for _, o := range p.origins(p.stringArg(getCodec, 1), originOpts{}) {
 		if !loadsField(o, accept) {
 			codecKeyOK = false
 		}
@@ -151,7 +151,7 @@ func ruleCTAgree(r *Run) {
 		"the reply codec is not selected by the negotiated content type")
 	ctOK, what := true, ""
 	nAccept, nBody := 0, 0
-	for _, o := range p.origins(write.Common().Args[3], originOpts{}) {
+	for _, o := range p.origins(p.stringArg(write, 3), originOpts{}) {
 		if loadsField(o, accept) {
 			nAccept++
 			continue
@@ -305,7 +305,7 @@ func ruleOffersAgree(r *Run) {
 		r.missing("func NewMux")
 	} else {
 		good, n := false, 0
-		eachInstr(nm, func(in ssa.Instruction) {
+		p.eachInstrR(nm, func(in ssa.Instruction) {
 			st, ok := in.(*ssa.Store)
 			if !ok {
 				return
@@ -699,4 +699,27 @@ func mapLiteralKeys(p *Program, e ast.Expr) (map[string]bool, bool) {
 		}
 	}
 	return out, true
+}
+
+// stringArg returns the argument of call c bound to the callee's only parameter of type string (so that a
+// reordering of an internal function's parameters does not matter); the positional argument `fallback` when the
+// callee has no or several such parameters.
+func (p *Program) stringArg(c ssa.CallInstruction, fallback int) ssa.Value {
+	callee := c.Common().StaticCallee()
+	if callee != nil {
+		idx, n := -1, 0
+		for i, par := range callee.Params {
+			if b, ok := par.Type().(*types.Basic); ok && b.Kind() == types.String {
+				idx = i
+				n++
+			}
+		}
+		if n == 1 && idx < len(c.Common().Args) {
+			return c.Common().Args[idx]
+		}
+	}
+	if fallback < len(c.Common().Args) {
+		return c.Common().Args[fallback]
+	}
+	return nil
 }
